@@ -172,7 +172,7 @@ type lworld struct {
 	m     qa.Model               // the harness's own count model of the property (drain length only)
 	mp    int                    // consumers parked according to that model
 	fuzzy bool                   // after a burst / race the model is only an estimate of the length
-	nadds int                    // adds issued so far
+	slack int                    // adds of bursts / races refused by the model for capacity
 	dead  bool
 	pend  *pending
 	// the steps still to come: the plan, then the drain
@@ -383,27 +383,36 @@ func (wd *lworld) collect() {
 		}
 	}
 	ev := tr.E{"ev": "step", "a": a.rec(), "r": rep, "st": st}
+	// the count model: Closed must be a certainty (a WaitClose with a live context is issued on it),
+	// so a try-close only counts while the model is exact and nothing is added in the same step
+	wasFuzzy := wd.fuzzy
+	adds := 0
+	for _, x := range a.Acts {
+		if x.Op == "add" {
+			adds++
+		}
+	}
+	tryCloseCounts := !wasFuzzy && adds == 0
 	switch a.Op {
 	case "burst":
 		ev["rs"] = rs
 		wd.fuzzy = true
 		for _, x := range a.Acts {
-			wd.model(x)
+			if x.Op != "tryclose" || tryCloseCounts {
+				wd.model(x)
+			}
 		}
 	case "race":
 		ev["rs"] = rs
 		wd.fuzzy = true
-		// count model after a race: Len must be an upper bound and Closed a certainty, whatever the
-		// order was: adds first, then close; a try-close counts only when nothing was added
-		adds := 0
+		// adds first, then close, then the Pops
 		for _, x := range a.Acts {
 			if x.Op == "add" {
 				wd.model(x)
-				adds++
 			}
 		}
 		for _, x := range a.Acts {
-			if x.Op == "close" || (x.Op == "tryclose" && adds == 0) {
+			if x.Op == "close" || (x.Op == "tryclose" && tryCloseCounts) {
 				wd.model(x)
 			}
 		}
@@ -414,6 +423,10 @@ func (wd *lworld) collect() {
 		}
 	case "pop":
 		wd.modelPop(a.Act)
+	case "tryclose":
+		if tryCloseCounts {
+			wd.model(a.Act)
+		}
 	default:
 		wd.model(a.Act)
 	}
@@ -436,10 +449,11 @@ func (wd *lworld) modelPop(x qa.Act) {
 
 // model advances the count model: parked consumers take what arrives, a close releases them.
 func (wd *lworld) model(x qa.Act) {
-	if x.Op == "add" || x.Op == "addw" {
-		wd.nadds++
-	}
+	before := wd.m.Len()
 	wd.m.Apply(x)
+	if x.Op == "add" && wd.fuzzy && !wd.m.Closed && wd.m.Len() == before {
+		wd.slack++
+	}
 	for wd.mp > 0 && wd.m.Len() > 0 {
 		wd.m.Apply(qa.Act{Op: "pop", Any: true})
 		wd.mp--
@@ -518,11 +532,9 @@ func (wd *lworld) next() (act, bool) {
 				}
 			}
 			if free != 0 {
-				n := wd.m.Len()
-				if wd.fuzzy && wd.nadds > n {
-					n = wd.nadds // an upper bound: every item must come out before "closed"
-				}
-				for i := n + 1; i > 0; i-- {
+				// an upper bound of what is queued: the model's length plus the adds of bursts / races
+				// that the model refused for capacity (in another order they may have been accepted)
+				for i := wd.m.Len() + wd.slack + 1; i > 0; i-- {
 					wd.dq = append(wd.dq, act{Act: qa.Act{Op: "pop", Any: true}, C: free})
 				}
 			}
